@@ -779,7 +779,7 @@ CHECKS = [
     Check("generate", run=run_generate, strategy=strat_generate, examples=(128, 1200), shards=(16, 16),
           rule="generate() with entropy tapes: invariants, exact size, FIPS 186-4 margins, determinism"),
     Check("construct", run=run_construct, strategy=strat_construct, examples=(4000, 60000), shards=(16, 16),
-          rule="construct() with valid shapes and single-fault corruptions: refused with ValueError, or the returned key satisfies all invariants"),
+          rule="construct() (and DSA.generate(domain=)) with valid shapes and single-fault corruptions, incl. composite DSA p/q and a Carmichael ElGamal modulus with every other condition holding: refused with ValueError, or the returned key satisfies all invariants"),
     Check("import_mutated", run=run_import, strategy=strat_import, examples=(5000, 90000), shards=(16, 16),
           rule="import_key() of DER exports with INTEGER/OCTET/BIT STRING contents mutated: any returned key satisfies all invariants"),
     Check("fuzz_import", run=run_fuzz_import, decode=fuzz_decode, corpus=fuzz_corpus, examples=(160000, 4000000), shards=(8, 16), max_len=1400,
